@@ -266,6 +266,7 @@ def run(report, tier):
             tasks = [(be, q) for be in backends for q in desc[be]["qty"] if not desc[be]["has_ref"][q]]
             report.bounds["e2"] = "Temperature in both back-ends: all 9 ordered unit pairs, uninterpreted amounts"
             cands = pool.run(report, task, tasks)
+            pool.cross_check(report)
             E.native_confirm(report, "C10", cands, desc, oracle, probes=E.probe_amounts_2)
             for f in futs:
                 f.result()
